@@ -114,6 +114,8 @@ func cmdEtcdRun(args []string) int {
 					env.SeedIndex(k+1, kv.Mod, false)
 				}
 			}
+			// "compact_rev_key" carries no prefix: whatever an earlier case wrote under it is still in the engine
+			purgeRaw(engs[en], []byte("compact_rev_key"))
 			env.B.SetCurrentRevision(5)
 			srv := etcd.New(env.B, kb.Metrics(), leaderPeers())
 			keyOf := func(k int) []byte {
@@ -202,4 +204,23 @@ func cmdEtcdRun(args []string) int {
 	}
 	fmt.Printf("etcdrun engines=%s cases=%d events=%d wall=%.1fs\n", *engine, rep.Histories, rep.Events, rep.WallS)
 	return 0
+}
+
+// purgeRaw removes the index record and every version record of a raw key directly from the engine.
+func purgeRaw(e *kb.Engine, raw []byte) {
+	ctx := context.Background()
+	lo := kb.Coder.EncodeObjectKey(raw, 0)
+	hi := kb.Coder.EncodeObjectKey(raw, ^uint64(0))
+	it, err := e.KV.Iter(ctx, lo, append(append([]byte(nil), hi...), 0), 0, 0)
+	if err != nil {
+		return
+	}
+	var keys [][]byte
+	for it.Next(ctx) == nil {
+		keys = append(keys, append([]byte(nil), it.Key()...))
+	}
+	it.Close()
+	for _, k := range keys {
+		e.KV.Del(ctx, k)
+	}
 }
